@@ -201,46 +201,49 @@ Qed.
 Lemma fwd_all i t1 : fwd i t1.
 Proof.
   induction t1 as [ | s e | k c | | | k | k s e | items IH | n k u IH | o IH | b items IH | l IH | u IH | | u IH | | b | l IH | a b IHa IHb | | r c sp IH ] using tnode_nested_ind;
-    intros t2 H; destruct t2; try (cbn [eq_m] in H; discriminate H).
+    intros t2 H;
+    destruct t2 as [ | s' e' | k' c' | | | k' | k' s' e' | items' | n' k' u' | o' | b' items' | l' | u' | | u' | | b' | l' | a' b' | | r' c' sp' ];
+    try (cbn [eq_m] in H; discriminate H).
   - (* NStr *) split; reflexivity.
-  - (* NInsens *) apply bytes_eqb_iff in H. cbn [debug_m hash_m]. rewrite H. split; reflexivity.
-  - (* NChar *) apply andb_true_iff in H as [Hk Hc]. apply chk_eqb_iff in Hk. apply N.eqb_eq in Hc. subst.
-    split; reflexivity.
+  - (* NInsens *) cbn [eq_m] in H. apply bytes_eqb_iff in H. cbn [debug_m hash_m]. rewrite H. split; reflexivity.
+  - (* NChar *) cbn [eq_m] in H. apply andb_true_iff in H as [Hk Hc]. apply chk_eqb_iff in Hk. apply N.eqb_eq in Hc.
+    subst. split; reflexivity.
   - split; reflexivity.
   - split; reflexivity.
-  - (* NNewline *) apply nlkind_eqb_iff in H. subst. split; reflexivity.
-  - (* NSpanned *) apply andb_true_iff in H as [Hk Hs]. apply spk_eqb_iff in Hk. apply span_eqb_iff in Hs.
-    injection Hs as -> ->. subst. split; reflexivity.
+  - (* NNewline *) cbn [eq_m] in H. apply nlkind_eqb_iff in H. subst. split; reflexivity.
+  - (* NSpanned *) cbn [eq_m] in H. apply andb_true_iff in H as [Hk Hs]. apply spk_eqb_iff in Hk.
+    apply span_eqb_iff in Hs. injection Hs as -> ->. subst. split; reflexivity.
   - (* NSeq *) rewrite eq_m_seq in H. destruct (fwd_items i items IH _ H) as [Hd Hh].
     rewrite !debug_m_seq, !hash_m_seq, !flat_map_concat_map, Hd, Hh, (map_eq_length _ _ _ Hd). split; reflexivity.
-  - (* NChoice *) apply andb_true_iff in H as [Hn Hu]. apply andb_true_iff in Hn as [Hn Hk].
+  - (* NChoice *) cbn [eq_m] in H. apply andb_true_iff in H as [Hn Hu]. apply andb_true_iff in Hn as [Hn Hk].
     apply Nat.eqb_eq in Hn, Hk. subst. destruct (IH _ Hu) as [Hd Hh]. cbn [debug_m hash_m]. rewrite Hd, Hh.
     split; reflexivity.
-  - (* NOpt *) destruct o as [u|], o0 as [u0|]; cbn [opt_eqb] in H; try discriminate H.
+  - (* NOpt *) cbn [eq_m] in H. destruct o as [u|], o' as [u'|]; cbn [opt_eqb] in H; try discriminate H.
     + destruct (IH _ H) as [Hd Hh]. cbn [debug_m hash_m]. rewrite Hd, Hh. split; reflexivity.
     + split; reflexivity.
-  - (* NRep *) rewrite eq_m_rep in H. apply andb_true_iff in H as [Hb H]. apply bool_eqb_iff in Hb. subst.
+  - (* NRep *) rewrite eq_m_rep in H. apply andb_true_iff in H as [Hb H]. apply eqb_prop in Hb. subst.
     destruct (fwd_items i items IH _ H) as [Hd Hh].
     rewrite !debug_m_rep, !hash_m_rep, !flat_map_concat_map, Hd, Hh, (map_eq_length _ _ _ Hd). split; reflexivity.
-  - (* NAtomicRep *) destruct (fwd_list i l IH _ H) as [Hd Hh].
+  - (* NAtomicRep *) cbn [eq_m] in H. destruct (fwd_list i l IH _ H) as [Hd Hh].
     cbn [debug_m hash_m]. rewrite !flat_map_concat_map, Hd, Hh, (map_eq_length _ _ _ Hd). split; reflexivity.
-  - (* NPos *) destruct (IH _ H) as [Hd Hh]. cbn [debug_m hash_m]. rewrite Hd, Hh. split; reflexivity.
+  - (* NPos *) cbn [eq_m] in H. destruct (IH _ H) as [Hd Hh]. cbn [debug_m hash_m]. rewrite Hd, Hh. split; reflexivity.
   - split; reflexivity.
-  - (* NPush *) destruct (IH _ H) as [Hd Hh]. cbn [debug_m hash_m]. rewrite Hd, Hh. split; reflexivity.
+  - (* NPush *) cbn [eq_m] in H. destruct (IH _ H) as [Hd Hh]. cbn [debug_m hash_m]. rewrite Hd, Hh. split; reflexivity.
   - split; reflexivity.
-  - (* NSlice *) apply bool_eqb_iff in H. subst. split; reflexivity.
-  - (* NArr *) destruct (fwd_list i l IH _ H) as [Hd Hh].
+  - (* NSlice *) cbn [eq_m] in H. apply eqb_prop in H. subst. split; reflexivity.
+  - (* NArr *) cbn [eq_m] in H. destruct (fwd_list i l IH _ H) as [Hd Hh].
     cbn [debug_m hash_m]. rewrite !flat_map_concat_map, Hd, Hh, (map_eq_length _ _ _ Hd). split; reflexivity.
-  - (* NPair *) apply andb_true_iff in H as [Ha Hb]. destruct (IHa _ Ha) as [Hd1 Hh1], (IHb _ Hb) as [Hd2 Hh2].
+  - (* NPair *) cbn [eq_m] in H. apply andb_true_iff in H as [Ha Hb].
+    destruct (IHa _ Ha) as [Hd1 Hh1], (IHb _ Hb) as [Hd2 Hh2].
     cbn [debug_m hash_m]. rewrite Hd1, Hh1, Hd2, Hh2. split; reflexivity.
   - split; reflexivity.
-  - (* NRule *) apply andb_true_iff in H as [Hrc Hsp]. apply andb_true_iff in Hrc as [Hr Hc].
+  - (* NRule *) cbn [eq_m] in H. apply andb_true_iff in H as [Hrc Hsp]. apply andb_true_iff in Hrc as [Hr Hc].
     apply N.eqb_eq in Hr. subst.
-    assert (Hsp' : sp = sp0).
-    { destruct sp as [p|], sp0 as [p0|]; cbn [opt_eqb] in Hsp; try discriminate Hsp; [|reflexivity].
+    assert (Hsp' : sp = sp').
+    { destruct sp as [p|], sp' as [p'|]; cbn [opt_eqb] in Hsp; try discriminate Hsp; [|reflexivity].
       apply span_eqb_iff in Hsp. subst. reflexivity. }
-    subst sp0.
-    destruct c as [u|], c0 as [u0|]; cbn [opt_eqb] in Hc; try discriminate Hc.
+    subst sp'.
+    destruct c as [u|], c' as [u'|]; cbn [opt_eqb] in Hc; try discriminate Hc.
     + destruct (IH _ Hc) as [Hd Hh]. cbn [debug_m hash_m]. rewrite Hd, Hh. split; reflexivity.
     + split; reflexivity.
 Qed.
@@ -279,26 +282,25 @@ Proof.
 Qed.
 
 (* renderings with their continuation, right-nested *)
+Ltac norm_app := repeat (progress cbn [app map djoin fst snd] || rewrite <- app_assoc || rewrite app_nil_r).
+
 Lemma dstruct_app n fs r :
   dstruct n fs ++ r = DName n :: DOpenB :: djoin (map (fun fv => DName (fst fv) :: DColon :: snd fv) fs) ++ DCloseB :: r.
-Proof. unfold dstruct. cbn [app]. rewrite <- app_assoc. reflexivity. Qed.
+Proof. unfold dstruct. norm_app. reflexivity. Qed.
 
 Lemma dstruct1_app n f v r : dstruct n [(f, v)] ++ r = DName n :: DOpenB :: DName f :: DColon :: v ++ DCloseB :: r.
-Proof. rewrite dstruct_app. cbn [map djoin fst snd app]. rewrite app_nil_r. reflexivity. Qed.
+Proof. unfold dstruct. norm_app. reflexivity. Qed.
 
 Lemma dstruct2_app n f1 v1 f2 v2 r :
   dstruct n [(f1, v1); (f2, v2)] ++ r =
   DName n :: DOpenB :: DName f1 :: DColon :: v1 ++ DComma :: DName f2 :: DColon :: v2 ++ DCloseB :: r.
-Proof.
-  rewrite dstruct_app. cbn [map djoin fst snd app]. rewrite app_nil_r. rewrite <- app_assoc. cbn [app].
-  rewrite <- app_assoc. reflexivity.
-Qed.
+Proof. unfold dstruct. norm_app. reflexivity. Qed.
 
 Lemma dtuple_app n fs r : dtuple n fs ++ r = DName n :: DOpenP :: djoin fs ++ DCloseP :: r.
-Proof. unfold dtuple. cbn [app]. rewrite <- app_assoc. reflexivity. Qed.
+Proof. unfold dtuple. norm_app. reflexivity. Qed.
 
 Lemma dlist_app items r : dlist items ++ r = DOpenS :: djoin items ++ DCloseS :: r.
-Proof. unfold dlist. cbn [app]. rewrite <- app_assoc. reflexivity. Qed.
+Proof. unfold dlist. norm_app. reflexivity. Qed.
 
 Lemma debug_span_decode i s1 e1 s2 e2 r1 r2 :
   debug_span i s1 e1 ++ r1 = debug_span i s2 e2 ++ r2 -> s1 = s2 /\ e1 = e2 /\ r1 = r2.
@@ -345,19 +347,29 @@ Proof.
   intros x. apply debug_head_ne. exact Hs.
 Qed.
 
+Lemma ditem_nil i m : ditem i ([], m) = debug_m i m.
+Proof. reflexivity. Qed.
+
+Lemma ditem_cons_app i x sk m r :
+  ditem i (x :: sk, m) ++ r =
+  DName DnSkipped :: DOpenB :: DName DnSkippedField :: DColon :: DOpenS ::
+    djoin (map (debug_m i) (x :: sk)) ++ DCloseS :: DComma :: DName DnMatched :: DColon :: debug_m i m ++ DCloseB :: r.
+Proof. unfold ditem. cbn [fst snd]. rewrite dstruct2_app, dlist_app. reflexivity. Qed.
+
 Lemma dec_item i a : Pitem (dec i) a ->
   forall b r1 r2, ditem i a ++ r1 = ditem i b ++ r2 -> item_eqb i a b = true /\ r1 = r2.
 Proof.
-  intros [Hsk Hm] b r1 r2 H. destruct a as [ska ma], b as [skb mb]. unfold ditem, item_eqb in *.
+  intros [Hsk Hm] b r1 r2 H. destruct a as [ska ma], b as [skb mb]. unfold item_eqb.
   cbn [fst snd] in *. destruct ska as [|x ska], skb as [|y skb].
-  - apply Hm in H as [H ->]. cbn [list_eqb andb]. split; [exact H | reflexivity].
-  - exfalso. rewrite dstruct2_app in H. destruct (debug_head i ma) as (tk & tl & E & Hs). rewrite E in H.
+  - rewrite !ditem_nil in H. apply Hm in H as [H ->]. cbn [list_eqb andb]. split; [exact H | reflexivity].
+  - exfalso. rewrite ditem_nil, ditem_cons_app in H. destruct (debug_head i ma) as (tk & tl & E & Hs). rewrite E in H.
     cbn [app] in H. injection H as H _. subst tk. exact Hs.
-  - exfalso. rewrite dstruct2_app in H. destruct (debug_head i mb) as (tk & tl & E & Hs). rewrite E in H.
+  - exfalso. rewrite ditem_nil, ditem_cons_app in H. destruct (debug_head i mb) as (tk & tl & E & Hs). rewrite E in H.
     cbn [app] in H. injection H as H _. subst tk. exact Hs.
-  - rewrite !dstruct2_app, !dlist_app in H. injection H as H. rewrite <- !app_assoc in H. cbn [app] in H.
-    apply (dec_list i DCloseS (x :: ska)) in H; [|discriminate | exact (fun F => F) | exact Hsk].
-    destruct H as [Hl H]. injection H as H. apply Hm in H as [Hmm H]. injection H as ->.
+  - rewrite !ditem_cons_app in H. injection H as H.
+    assert (Hc : DCloseS <> DComma) by discriminate.
+    destruct (dec_list i DCloseS (x :: ska) Hc (fun F => F) Hsk (y :: skb) _ _ H) as [Hl H'].
+    clear H. rename H' into H. injection H as H. apply Hm in H as [Hmm H]. injection H as ->.
     rewrite Hl, Hmm. split; reflexivity.
 Qed.
 
@@ -374,31 +386,129 @@ Proof.
   - eapply Forall_impl; [|exact HF]. intros a Ha. apply dec_item. exact Ha.
 Qed.
 
+Lemma dpair_app da db r :
+  (DOpenP :: djoin [da; db] ++ [DCloseP]) ++ r = DOpenP :: da ++ DComma :: db ++ DCloseP :: r.
+Proof. norm_app. reflexivity. Qed.
+
+Ltac kill H :=
+  try (cbn [debug_m dstruct dtuple dlist app chk_name] in H; discriminate H).
+
 Lemma dec_all i t1 : dec i t1.
 Proof.
-  induction t1 as [ | s e | k c | | | k | k s e | items IH | n k u IH | o IH | b items IH | l IH | u IH | | u IH | | b | l IH | a b IHa IHb | | r c sp IH ] using tnode_nested_ind;
-    intros t2 r1 r2 H.
-  - (* NStr *) destruct t2; try (destruct o); try (destruct bounded); try (destruct two); try (destruct k);
-      cbn [debug_m dstruct dtuple dlist app chk_name] in H; try discriminate H.
-    injection H as ->. split; reflexivity.
-  - (* NInsens *) admit.
-  - admit.
-  - admit.
-  - admit.
-  - admit.
-  - admit.
-  - admit.
-  - admit.
-  - admit.
-  - admit.
-  - admit.
-  - admit.
-  - admit.
-  - admit.
-  - admit.
-  - admit.
-  - admit.
-  - admit.
-  - admit.
-  - admit.
-Abort.
+  induction t1 as [ | s e | ck c | | | nk | sk s e | items IH | n v u IH | o IH | bd items IH | l IH | u IH | | u IH | | two | l IH | pa pb IHa IHb | | r c sp IH ] using tnode_nested_ind;
+    intros t2 r1 r2 H;
+    try (destruct ck as [| |p]); try (destruct o as [u|]); try (destruct bd); try (destruct two);
+    destruct t2 as [ | s' e' | ck' c' | | | nk' | sk' s' e' | items' | n' v' u' | o' | bd' items' | l' | u' | | u' | | two' | l' | pa' pb' | | r' c' sp' ];
+    try (destruct ck' as [| |p']); try (destruct o' as [u'|]); try (destruct bd'); try (destruct two');
+    kill H.
+  - (* NStr *) cbn [debug_m app] in H. injection H as ->. split; reflexivity.
+  - (* NInsens *) cbn [debug_m] in H. rewrite !dstruct1_app in H. cbn [app] in H. injection H as Ht ->.
+    cbn [eq_m]. rewrite Ht. split; [apply bytes_eqb_iff; reflexivity | reflexivity].
+  - (* NChar range *) cbn [debug_m chk_name] in H. rewrite !dstruct1_app in H. cbn [app] in H. injection H as -> ->.
+    cbn [eq_m chk_eqb andb]. rewrite N.eqb_refl. split; reflexivity.
+  - (* NChar any *) cbn [debug_m chk_name] in H. rewrite !dstruct1_app in H. cbn [app] in H. injection H as -> ->.
+    cbn [eq_m chk_eqb andb]. rewrite N.eqb_refl. split; reflexivity.
+  - (* NChar prop *) cbn [debug_m chk_name] in H. rewrite !dstruct1_app in H. cbn [app] in H. injection H as -> -> ->.
+    cbn [eq_m chk_eqb]. rewrite !N.eqb_refl. split; reflexivity.
+  - (* NSoi *) cbn [debug_m app] in H. injection H as ->. split; reflexivity.
+  - (* NEoi *) cbn [debug_m app] in H. injection H as ->. split; reflexivity.
+  - (* NNewline *) cbn [debug_m] in H. rewrite !dstruct1_app in H. cbn [app] in H. injection H as -> ->.
+    cbn [eq_m]. split; [apply nlkind_eqb_iff; reflexivity | reflexivity].
+  - (* NSpanned *) cbn [debug_m] in H. rewrite !dstruct1_app in H. injection H as -> _ -> -> ->.
+    cbn [eq_m]. split; [|reflexivity]. apply andb_true_iff. split; [apply spk_eqb_iff | apply span_eqb_iff]; reflexivity.
+  - (* NSeq *) rewrite !debug_m_seq, !dtuple_app in H. injection H as _ H.
+    destruct (dec_items i DCloseP items (or_intror eq_refl) IH items' _ _ H) as [Hl ->].
+    rewrite eq_m_seq. split; [exact Hl | reflexivity].
+  - (* NChoice *) cbn [debug_m] in H. rewrite !dstruct1_app in H. injection H as -> -> H.
+    apply IH in H as [Hu H]. injection H as ->. cbn [eq_m]. rewrite !Nat.eqb_refl, Hu. split; reflexivity.
+  - (* NOpt Some *) cbn [Popt] in IH. cbn [debug_m] in H. rewrite !dtuple_app in H. cbn [djoin] in H.
+    rewrite !app_nil_r in H. injection H as H. apply IH in H as [Hu H]. injection H as ->.
+    cbn [eq_m opt_eqb]. split; [exact Hu | reflexivity].
+  - (* NOpt None *) cbn [debug_m app] in H. injection H as ->. split; reflexivity.
+  - (* NRep true *) rewrite !debug_m_rep, !dstruct1_app, !dlist_app in H. injection H as H.
+    destruct (dec_items i DCloseS items (or_introl eq_refl) IH items' _ _ H) as [Hl H']. injection H' as ->.
+    rewrite eq_m_rep. cbn [Bool.eqb andb]. split; [exact Hl | reflexivity].
+  - (* NRep false *) rewrite !debug_m_rep, !dstruct1_app, !dlist_app in H. injection H as H.
+    destruct (dec_items i DCloseS items (or_introl eq_refl) IH items' _ _ H) as [Hl H']. injection H' as ->.
+    rewrite eq_m_rep. cbn [Bool.eqb andb]. split; [exact Hl | reflexivity].
+  - (* NAtomicRep *) cbn [debug_m] in H. rewrite !dstruct1_app, !dlist_app in H. injection H as H.
+    assert (Hc : DCloseS <> DComma) by discriminate.
+    destruct (dec_list i DCloseS l Hc (fun F => F) IH l' _ _ H) as [Hl H']. injection H' as ->.
+    cbn [eq_m]. split; [exact Hl | reflexivity].
+  - (* NPos *) cbn [debug_m] in H. rewrite !dstruct1_app in H. injection H as H.
+    apply IH in H as [Hu H]. injection H as ->. cbn [eq_m]. split; [exact Hu | reflexivity].
+  - (* NNeg *) cbn [debug_m app] in H. injection H as ->. split; reflexivity.
+  - (* NPush *) cbn [debug_m] in H. rewrite !dstruct1_app in H. injection H as H.
+    apply IH in H as [Hu H]. injection H as ->. cbn [eq_m]. split; [exact Hu | reflexivity].
+  - (* NDrop *) cbn [debug_m app] in H. injection H as ->. split; reflexivity.
+  - (* NSlice true *) cbn [debug_m app] in H. injection H as ->. split; reflexivity.
+  - (* NSlice false *) cbn [debug_m app] in H. injection H as ->. split; reflexivity.
+  - (* NArr *) cbn [debug_m] in H. rewrite !dlist_app in H. injection H as H.
+    assert (Hc : DCloseS <> DComma) by discriminate.
+    destruct (dec_list i DCloseS l Hc (fun F => F) IH l' _ _ H) as [Hl ->].
+    cbn [eq_m]. split; [exact Hl | reflexivity].
+  - (* NPair *) cbn [debug_m] in H. rewrite !dpair_app in H. injection H as H.
+    apply IHa in H as [Ha H]. injection H as H. apply IHb in H as [Hb H]. injection H as ->.
+    cbn [eq_m]. rewrite Ha, Hb. split; reflexivity.
+  - (* NEmpty *) cbn [debug_m app] in H. injection H as ->. split; reflexivity.
+  - (* NRule *)
+    destruct c as [u|], sp as [[s e]|], c' as [u'|], sp' as [[s' e']|]; cbn [Popt] in IH;
+      cbn [debug_m app] in H; rewrite ?dstruct2_app, ?dstruct1_app, ?dstruct_app in H;
+      cbn [map djoin app] in H; try discriminate H.
+    all: try (injection H as -> H; apply IH in H as [Hu H]; try discriminate H).
+    + injection H as _ -> -> ->. cbn [eq_m opt_eqb]. rewrite N.eqb_refl, Hu. cbn [andb].
+      split; [apply span_eqb_iff; reflexivity | reflexivity].
+    + injection H as ->. cbn [eq_m opt_eqb]. rewrite N.eqb_refl, Hu. split; reflexivity.
+    + injection H as -> _ -> -> ->. cbn [eq_m opt_eqb]. rewrite N.eqb_refl. cbn [andb].
+      split; [apply span_eqb_iff; reflexivity | reflexivity].
+    + injection H as -> ->. cbn [eq_m opt_eqb]. rewrite N.eqb_refl. split; reflexivity.
+Qed.
+
+(* ------------------------------------------------------------------ the statements of C18 *)
+Theorem eq_debug_iff i t1 t2 : eq_m i t1 t2 = true <-> debug_m i t1 = debug_m i t2.
+Proof.
+  split.
+  - intros H. apply (fwd_all i t1 t2 H).
+  - intros H. destruct (dec_all i t1 t2 [] []) as [He _]; [|exact He].
+    rewrite !app_nil_r. exact H.
+Qed.
+
+Theorem eq_hash i t1 t2 : eq_m i t1 t2 = true -> hash_m i t1 = hash_m i t2.
+Proof. intros H. apply (fwd_all i t1 t2 H). Qed.
+
+(* `clone()` is a structural copy: on the model it is the identity, so "a clone equals its original and
+   hashes equally" is reflexivity (the hash half is [f_equal]) *)
+Theorem eq_refl_m i t : eq_m i t t = true.
+Proof. apply eq_debug_iff. reflexivity. Qed.
+
+Theorem eq_sym_m i t1 t2 : eq_m i t1 t2 = eq_m i t2 t1.
+Proof.
+  destruct (eq_m i t1 t2) eqn:E1, (eq_m i t2 t1) eqn:E2; try reflexivity.
+  - apply eq_debug_iff in E1. symmetry in E1. apply eq_debug_iff in E1. congruence.
+  - apply eq_debug_iff in E2. symmetry in E2. apply eq_debug_iff in E2. congruence.
+Qed.
+
+Theorem eq_trans_m i t1 t2 t3 : eq_m i t1 t2 = true -> eq_m i t2 t3 = true -> eq_m i t1 t3 = true.
+Proof.
+  intros H1 H2. apply eq_debug_iff in H1, H2. apply eq_debug_iff. congruence.
+Qed.
+
+(* `!=` : two values differ iff their renderings differ *)
+Theorem ne_debug_iff i t1 t2 : eq_m i t1 t2 = false <-> debug_m i t1 <> debug_m i t2.
+Proof.
+  split.
+  - intros H E. apply eq_debug_iff in E. congruence.
+  - intros H. destruct (eq_m i t1 t2) eqn:E; [|reflexivity]. apply eq_debug_iff in E. contradiction.
+Qed.
+
+(* the statements instantiated at parse results: two successful parses of one expression on (sub-)inputs of
+   one input object -- whatever the sub-ranges, start states and fuel *)
+From PT Require Import Model.Stack Model.Sem.
+
+Theorem parse_results_eq (E1 E2 : env) fuel1 fuel2 inh1 inh2 e pos1 pos2 st1 st2 p1 p2 t1 t2 s1 s2 :
+  parent (e_inp E1) = parent (e_inp E2) ->
+  tparse E1 fuel1 inh1 e pos1 st1 = Ok (p1, t1) s1 ->
+  tparse E2 fuel2 inh2 e pos2 st2 = Ok (p2, t2) s2 ->
+  (eq_m (parent (e_inp E1)) t1 t2 = true <-> debug_m (parent (e_inp E1)) t1 = debug_m (parent (e_inp E1)) t2) /\
+  (eq_m (parent (e_inp E1)) t1 t2 = true -> hash_m (parent (e_inp E1)) t1 = hash_m (parent (e_inp E1)) t2).
+Proof. intros _ _ _. split; [apply eq_debug_iff | apply eq_hash]. Qed.
